@@ -143,29 +143,34 @@ pub struct Profile {
     pub max_pre: usize,
     /// allow skip_to_end inside scripts
     pub skips: bool,
+    /// probability (x/16) that a chunk size is huge (usize::MAX, MAX/2, MAX-7)
+    pub huge16: u32,
 }
 
 pub fn profile(name: &str) -> Profile {
     //            next nid chunk buf vals ids fe efe fold len more skip
     let base = [6, 6, 6, 5, 2, 2, 1, 1, 1, 2, 2, 0];
     match name {
-        "mixed" => Profile { name: "mixed", w: base, drain16: 10, post16: 8, max_pre: 6, skips: false },
-        "pulls" => Profile { name: "pulls", w: [6, 6, 7, 6, 3, 3, 2, 2, 2, 0, 0, 0], drain16: 14, post16: 4, max_pre: 5, skips: false },
-        "index" => Profile { name: "index", w: [1, 8, 6, 6, 0, 5, 0, 4, 0, 0, 0, 0], drain16: 12, post16: 2, max_pre: 6, skips: false },
-        "chunks" => Profile { name: "chunks", w: [2, 2, 10, 10, 0, 0, 1, 1, 1, 0, 0, 0], drain16: 10, post16: 4, max_pre: 7, skips: false },
-        "order" => Profile { name: "order", w: [6, 8, 6, 5, 2, 2, 0, 0, 0, 1, 1, 0], drain16: 6, post16: 3, max_pre: 8, skips: false },
-        "pastend" => Profile { name: "pastend", w: [6, 6, 5, 5, 2, 2, 1, 1, 1, 3, 3, 0], drain16: 14, post16: 16, max_pre: 3, skips: false },
-        "skip" => Profile { name: "skip", w: [6, 6, 5, 5, 2, 2, 1, 1, 1, 3, 3, 5], drain16: 6, post16: 16, max_pre: 6, skips: true },
-        "len" => Profile { name: "len", w: [5, 5, 5, 4, 1, 1, 1, 1, 0, 8, 8, 1], drain16: 8, post16: 10, max_pre: 8, skips: true },
-        "foreach" => Profile { name: "foreach", w: [2, 2, 2, 2, 1, 1, 6, 6, 6, 0, 0, 0], drain16: 8, post16: 6, max_pre: 3, skips: false },
-        "iterwait" => Profile { name: "iterwait", w: [6, 6, 6, 6, 2, 2, 1, 1, 1, 1, 1, 2], drain16: 8, post16: 6, max_pre: 6, skips: true },
-        "race" => Profile { name: "race", w: [6, 3, 3, 3, 1, 1, 1, 1, 0, 0, 0, 1], drain16: 16, post16: 2, max_pre: 2, skips: true },
-        "drops" => Profile { name: "drops", w: [5, 5, 8, 8, 1, 1, 1, 1, 1, 0, 0, 2], drain16: 5, post16: 4, max_pre: 6, skips: true },
+        "mixed" => Profile { name: "mixed", w: base, drain16: 10, post16: 8, max_pre: 6, skips: false, huge16: 0 },
+        "pulls" => Profile { name: "pulls", w: [6, 6, 7, 6, 3, 3, 2, 2, 2, 0, 0, 0], drain16: 14, post16: 4, max_pre: 5, skips: false, huge16: 0 },
+        "index" => Profile { name: "index", w: [1, 8, 6, 6, 0, 5, 0, 4, 0, 0, 0, 0], drain16: 12, post16: 2, max_pre: 6, skips: false, huge16: 0 },
+        "chunks" => Profile { name: "chunks", w: [2, 2, 10, 10, 0, 0, 1, 1, 1, 0, 0, 0], drain16: 10, post16: 4, max_pre: 7, skips: false, huge16: 2 },
+        "order" => Profile { name: "order", w: [6, 8, 6, 5, 2, 2, 0, 0, 0, 1, 1, 0], drain16: 6, post16: 3, max_pre: 8, skips: false, huge16: 2 },
+        "pastend" => Profile { name: "pastend", w: [6, 6, 5, 5, 2, 2, 1, 1, 1, 3, 3, 0], drain16: 14, post16: 16, max_pre: 3, skips: false, huge16: 0 },
+        "skip" => Profile { name: "skip", w: [6, 6, 5, 5, 2, 2, 1, 1, 1, 3, 3, 5], drain16: 6, post16: 16, max_pre: 6, skips: true, huge16: 0 },
+        "len" => Profile { name: "len", w: [5, 5, 5, 4, 1, 1, 1, 1, 0, 8, 8, 1], drain16: 8, post16: 10, max_pre: 8, skips: true, huge16: 0 },
+        "foreach" => Profile { name: "foreach", w: [2, 2, 2, 2, 1, 1, 6, 6, 6, 0, 0, 0], drain16: 8, post16: 6, max_pre: 3, skips: false, huge16: 0 },
+        "iterwait" => Profile { name: "iterwait", w: [6, 6, 6, 6, 2, 2, 1, 1, 1, 1, 1, 2], drain16: 8, post16: 6, max_pre: 6, skips: true, huge16: 0 },
+        "race" => Profile { name: "race", w: [6, 3, 3, 3, 1, 1, 1, 1, 0, 2, 2, 1], drain16: 16, post16: 2, max_pre: 2, skips: true, huge16: 0 },
+        "drops" => Profile { name: "drops", w: [5, 5, 8, 8, 1, 1, 1, 1, 1, 0, 0, 2], drain16: 5, post16: 4, max_pre: 6, skips: true, huge16: 0 },
         other => panic!("unknown profile {other}"),
     }
 }
 
-fn chunk_size(rng: &mut Rng, len: usize) -> usize {
+fn chunk_size(rng: &mut Rng, len: usize, huge16: u32) -> usize {
+    if huge16 > 0 && rng.chance(huge16, 16) {
+        return *rng.pick(&[usize::MAX, usize::MAX / 2, usize::MAX - 7]);
+    }
     let cands = [1, 2, 3, len.saturating_sub(1), len, len + 1, 2 * len, 4, 7, 64, 1024];
     loop {
         let n = *rng.pick(&cands);
@@ -183,7 +188,9 @@ fn consume_count(rng: &mut Rng, n: usize) -> usize {
     }
 }
 
-pub fn gen_op(rng: &mut Rng, p: &Profile, len: usize, pulls_only: bool) -> Op {
+pub fn gen_op(rng: &mut Rng, p: &Profile, len: usize, pulls_only: bool, wrapped: bool) -> Op {
+    // a wrapped iterator allocates chunk_size slots for buffered pulls (documented): no huge sizes there
+    let huge_buf = if wrapped { 0 } else { p.huge16 };
     let total: u32 = p.w.iter().enumerate().map(|(i, w)| if pulls_only && i >= 9 { 0 } else { *w }).sum();
     let mut x = (rng.next_u64() % total.max(1) as u64) as u32;
     let mut code = 0;
@@ -199,34 +206,34 @@ pub fn gen_op(rng: &mut Rng, p: &Profile, len: usize, pulls_only: bool) -> Op {
         0 => Op::Next,
         1 => Op::NextIdVal,
         2 => {
-            let n = chunk_size(rng, len);
+            let n = chunk_size(rng, len, p.huge16);
             Op::Chunk { n, consume: consume_count(rng, n) }
         }
         3 => {
-            let n = chunk_size(rng, len);
-            Op::Buffered { n, pulls: rng.range(1, 3), consume: consume_count(rng, n) }
+            let n = chunk_size(rng, len, huge_buf);
+            Op::Buffered { n, pulls: rng.range(1, 4), consume: consume_count(rng, n) }
         }
         4 => Op::Values { k: rng.range(1, 4) },
         5 => Op::IdsValues { k: rng.range(1, 4) },
-        6 => Op::ForEach { n: chunk_size(rng, len).min(64) },
-        7 => Op::EnumForEach { n: chunk_size(rng, len).min(64) },
-        8 => Op::Fold { n: chunk_size(rng, len).min(64) },
+        6 => Op::ForEach { n: chunk_size(rng, len, 0).min(64) },
+        7 => Op::EnumForEach { n: chunk_size(rng, len, 0).min(64) },
+        8 => Op::Fold { n: chunk_size(rng, len, 0).min(64) },
         9 => Op::Len,
         10 => Op::HasMore,
         _ => Op::Skip,
     }
 }
 
-pub fn gen_script(rng: &mut Rng, p: &Profile, len: usize) -> Script {
+pub fn gen_script(rng: &mut Rng, p: &Profile, len: usize, wrapped: bool) -> Script {
     let mut s = Script::default();
     let npre = rng.below(p.max_pre + 1);
     for _ in 0..npre {
-        s.pre.push(gen_op(rng, p, len, false));
+        s.pre.push(gen_op(rng, p, len, false, wrapped));
     }
     if rng.chance(p.drain16, 16) {
         let k = rng.range(1, 3);
         for _ in 0..k {
-            let mut op = gen_op(rng, p, len, true);
+            let mut op = gen_op(rng, p, len, true, wrapped);
             // a drain loop makes progress with every iteration: pull at least one item
             if let Op::Buffered { pulls, .. } = &mut op {
                 *pulls = (*pulls).max(1);
